@@ -70,6 +70,10 @@ def generate(rng, tier, shard, nshards):
             lat, lon, h = place(rng)
             kind = "ctor" if (j == 0 and i % 2 == 0) else ("none" if (j > 0 and rng.random() < 0.3) else "explicit")
             qs.append({"kind": kind, "lat": lat, "lon": lon, "h": h, "date": draw_date(rng, bool(rng.random() < 0.4))})
+            if j > 0 and i % 3 == 1 and rng.random() < 0.35:
+                # the object's public state methods called by hand between two queries (with a date of any epoch): the next dated query must not care
+                qs[-1]["pre"] = [str(rng.choice(["reset_date", "reset_coefficients", "load_coefficients"])), draw_date(rng, bool(rng.random() < 0.5))]
+                qs[-1]["kind"] = "explicit"
         yield Case("history", "history", queries=qs, frame="NED" if i % 3 else "ENU")
     for i in range(gens.budget(90, tier, nshards)):
         reg = ["entry:on-grid", "entry:off-grid", "entry:datetime"][i % 3]
@@ -143,6 +147,13 @@ def check_history(case, ctx):
         else:
             if w is None:
                 w = WMM(frame=frame)
+                cur_date = None
+            if q.get("pre") and w is not None:
+                meth, d2 = q["pre"]
+                pre = call(lambda: getattr(w, meth)(w.wmm_filename) if meth == "load_coefficients" else getattr(w, meth)(d2))
+                if not ctx.returned(pre, clause="no-exception[%s() called by hand]" % meth, route=route):
+                    return
+                log.append((meth, d2))
                 cur_date = None
             if q["kind"] == "none" and cur_date is None:
                 q = dict(q, kind="explicit")
